@@ -16,9 +16,12 @@ if [ "$4" != "notests" ]; then
   echo "pytest with patch: $(cat $OUT/pytest.log)"
 fi
 cd /verif
-git -C /repo apply $OUT/patch.diff || { echo "patch does not apply to /repo"; exit 8; }
+# run the check against a fresh worktree of /repo's HEAD with the patch applied (PYTHONPATH takes precedence over the
+# editable install), so that /repo itself is never modified and background checks on it are not disturbed
+CW=/tmp/wt/_try_$$; rm -rf $CW; git -C /repo worktree add -q --detach $CW HEAD || exit 8
+git -C $CW apply $OUT/patch.diff || { echo "patch does not apply to /repo HEAD"; git -C /repo worktree remove --force $CW; exit 8; }
 START=$(date +%s)
-./check $PID --tier ${TIER:-quick} > $OUT/check.log 2>&1; RC=$?
+PYTHONPATH=$CW VERIF_EVIDENCE_DIR=$OUT/evidence ./check $PID --tier ${TIER:-quick} > $OUT/check.log 2>&1; RC=$?
 END=$(date +%s)
-git -C /repo checkout -- .
+git -C /repo worktree remove --force $CW
 echo "check $PID rc=$RC in $((END-START))s"; grep -E "^VIOLATION|^  obligation|^INCONCLUSIVE|tier=" $OUT/check.log | cut -c1-220 | head -12
